@@ -102,7 +102,7 @@ class Class(Expression):
                 args = tuple(Code(x) for x in self.params)
                 out += _closure << _ParseFunction(parse_func, args, {})
                 out.RETURN(Code(
-                    f'lambda {ctx}text, pos=0, fullparse=True:'
+                    f'lambda text, pos=0, fullparse=True:'
                     f' _run({ctx}text, pos, _closure, fullparse)'
                 ))
         else:
